@@ -90,6 +90,9 @@ def line_text(tag: str, indent: int, length: int) -> str:
     return " " * indent + raw + tag
 
 
+_SHARED_SM = None
+
+
 class Src:
     """Source text built from a spec: fill=(count, indent) filler lines followed by the
     grid lines [(indent, length), ...]."""
@@ -106,12 +109,14 @@ class Src:
         self._sm = None
 
     def source_map(self):
-        if self._sm is None:
+        # ONE SourceMap per worker process, the same file name registered again with every new text - as in a
+        # long-lived session in which a module is edited and reloaded: rendering must use the current text
+        global _SHARED_SM
+        if _SHARED_SM is None:
             from guppylang_internals.span import SourceMap
-            sm = SourceMap()
-            sm.add_file(FILE, self.text)
-            self._sm = sm
-        return self._sm
+            _SHARED_SM = SourceMap()
+        _SHARED_SM.add_file(FILE, self.text)
+        return _SHARED_SM
 
     def indent_of(self, lineno: int) -> int:
         s = self.lines[lineno - 1]
